@@ -344,7 +344,8 @@ Proof.
   cbn [nodup_str] in Hnd. apply andb_true_iff in Hnd as [Hn1 Hn2]. apply negb_true_iff in Hn1.
   cbn [combine map]. f_equal.
   - unfold dict_get. cbn [assoc]. rewrite str_eqb_refl. reflexivity.
-  - rewrite <- (IH vs) at 2; [|cbn [List.length] in Hlen; lia | exact Hn2].
+  - transitivity (map (fun h0 => dict_get h0 (combine hs vs)) hs);
+      [|apply IH; [cbn [List.length] in Hlen; lia | exact Hn2]].
     apply map_ext_in. intros h' Hin. unfold dict_get. cbn [assoc].
     destruct (str_eqb h' h) eqn:E; [|reflexivity].
     apply str_eqb_eq in E. subst h'. apply mem_str_In in Hin. congruence.
